@@ -199,7 +199,7 @@ func c12VersionCoverage(c *rt.Ctx) {
 		fn := c.Fn(name)
 		base := map[*ssa.Function]bool{}
 		bcl := c12ClosureStop([]*ssa.Function{fn}, bogus, stop)
-		imprecise := bcl.imprecise
+		imprecise := bcl.imprecise || c12nOpaqueDispatch(bcl) != nil
 		for _, f := range bcl.fns {
 			base[f] = true
 		}
@@ -685,20 +685,31 @@ func c12L2(c *rt.Ctx) {
 					c.Unsure(s.what+" "+ver+" dispatch", hroot.Pos(), "cannot resolve the marshal/unmarshal function dispatched for this version")
 					continue
 				}
-				mr, _ := c12FieldUse(c12Closure(m, ver))
-				_, us := c12FieldUse(c12Closure(u, ver))
-				hr, _ := c12FieldUse(c12Closure([]*ssa.Function{hroot}, ver))
+				mcl, ucl, hcl := c12Closure(m, ver), c12Closure(u, ver), c12Closure([]*ssa.Function{hroot}, ver)
+				mr, _ := c12FieldUse(mcl)
+				_, us := c12FieldUse(ucl)
+				hr, _ := c12FieldUse(hcl)
 				if len(mr) == 0 || len(us) == 0 || len(hr) == 0 {
 					c.Unsure(s.what+" "+ver+" field sets", m[0].Pos(), "empty field set extracted")
 					continue
 				}
 				unh := c12Minus(mr, hr, s.cmpExempt...)
-				c.Check(s.what+" "+ver+" marshalled⊆hashed "+names(m), m[0].Pos(), len(unh) == 0,
-					"fields written to the file but covered by no hash for this version: "+strings.Join(unh, ", "))
+				if opq := c12nOpaqueDispatch(hcl, mcl); len(unh) > 0 && opq != nil {
+					c.Unsure(s.what+" "+ver+" marshalled⊆hashed "+names(m), m[0].Pos(), "the hash/marshal functions dispatch through function values the rule cannot resolve ("+
+						c.P.Fset.Position(opq.Pos()).String()+"); fields not seen hashed: "+strings.Join(unh, ", "))
+				} else {
+					c.Check(s.what+" "+ver+" marshalled⊆hashed "+names(m), m[0].Pos(), len(unh) == 0,
+						"fields written to the file but covered by no hash for this version: "+strings.Join(unh, ", "))
+				}
 				lost := c12Minus(us, mr, s.rtExempt...)
 				extra := c12Minus(mr, us, s.rtExempt...)
-				c.Check(s.what+" "+ver+" roundtrip "+names(m)+"/"+names(u), u[0].Pos(), len(lost) == 0 && len(extra) == 0,
-					"decode∘encode drops fields: restored but not written ["+strings.Join(lost, ", ")+"], written but not restored ["+strings.Join(extra, ", ")+"]")
+				if opq := c12nOpaqueDispatch(mcl, ucl); len(lost)+len(extra) > 0 && opq != nil {
+					c.Unsure(s.what+" "+ver+" roundtrip "+names(m)+"/"+names(u), u[0].Pos(), "the marshal/unmarshal functions dispatch through function values the rule cannot resolve ("+
+						c.P.Fset.Position(opq.Pos()).String()+")")
+				} else {
+					c.Check(s.what+" "+ver+" roundtrip "+names(m)+"/"+names(u), u[0].Pos(), len(lost) == 0 && len(extra) == 0,
+						"decode∘encode drops fields: restored but not written ["+strings.Join(lost, ", ")+"], written but not restored ["+strings.Join(extra, ", ")+"]")
+				}
 			}
 		}
 	})
@@ -712,6 +723,7 @@ type c12Flow struct {
 	memo map[ssa.Value][2]bool
 	busy map[ssa.Value]bool
 	fbsy map[ssa.Value]bool
+	lost ssa.Instruction // a followed value was handed to a function value whose targets cannot be resolved
 }
 
 // staticSites: the calls in the closure whose static callee is fn.
@@ -991,6 +1003,9 @@ func (f *c12Flow) from(seed ssa.Value) (sink, ret bool) {
 					}
 					if isArg {
 						push(x.Value()) // external pure helper (hex, strings, time.Unix, fmt.Sprintf ...)
+						if !cc.IsInvoke() && cc.StaticCallee() == nil && len(callees) == 0 && f.lost == nil {
+							f.lost = x
+						}
 					}
 				}
 			case *ssa.Store:
@@ -1280,6 +1295,18 @@ func c12L1(c *rt.Ctx) {
 		}
 		cl := c12Closure([]*ssa.Function{c.Fn("cluster.hashDefinition"), c.Fn("cluster.hashLock")}, ver)
 		fl := &c12Flow{cl: cl, memo: map[ssa.Value][2]bool{}, busy: map[ssa.Value]bool{}, fbsy: map[ssa.Value]bool{}}
+		// with unresolvable dispatch in the hash closure, "not hashed" is not positive evidence
+		opq := c12nOpaqueDispatch(cl)
+		bad := func(construct string, pos token.Pos, why string) {
+			if opq == nil {
+				opq = fl.lost
+			}
+			if opq != nil {
+				c.Unsure(construct, pos, "the hash functions dispatch through function values the rule cannot resolve ("+c.P.Fset.Position(opq.Pos()).String()+"): "+why)
+				return
+			}
+			c.Bad(construct, pos, why)
+		}
 		// flowing reads per field
 		flowing := map[string][]ssa.Instruction{}
 		for _, fn := range cl.fns {
@@ -1370,7 +1397,7 @@ func c12L1(c *rt.Ctx) {
 					}
 					fr := flowing[key]
 					if len(fr) == 0 {
-						c.Bad(key+" hashed", f.Pos(), "field is tagged "+tag+":\""+hv+"\" but no read of it reaches a hasher Put*/Append* call in the "+ver+" hash functions")
+						bad(key+" hashed", f.Pos(), "field is tagged "+tag+":\""+hv+"\" but no read of it reaches a hasher Put*/Append* call in the "+ver+" hash functions")
 						continue
 					}
 					if fi == 1 {
@@ -1401,7 +1428,11 @@ func c12L1(c *rt.Ctx) {
 						c.Unsure(key+" hashed", fr[0].Pos(), "the configOnly context of a function hashing this field cannot be resolved (no call site found)")
 						continue
 					}
-					c.Check(key+" hashed", fr[0].Pos(), good, why)
+					if good {
+						c.Good(key+" hashed", fr[0].Pos(), "")
+					} else {
+						bad(key+" hashed", fr[0].Pos(), why)
+					}
 				}
 				c.Check(c12P+tn+" every field carries a "+tag+" tag", obj.Pos(), len(untagged) == 0, "fields without a "+tag+" tag (neither hashed nor declared excluded): "+strings.Join(untagged, ", "))
 			}
